@@ -68,9 +68,12 @@ def revokedPanics (r : RevokedCert) : Bool :=
   timePanics r.revocationTime ||
   (match r.invalidityDate with | some d => genTimePanics d | none => false)
 
+def idpPanics : Option CrlIdp → Bool
+  | some idp => idp.uris.any (fun u => !isAscii u)
+  | none => false
+
 def crlPanics (p : CrlParams) (issuer : Issuer) : Bool :=
   dnPanics issuer.dn || timePanics p.thisUpdate || timePanics p.nextUpdate ||
-  p.revoked.any revokedPanics ||
-  (match p.idp with | some idp => idp.uris.any (fun u => !isAscii u) | none => false)
+  p.revoked.any revokedPanics || idpPanics p.idp
 
 end Rcgen.Model
